@@ -159,6 +159,10 @@ class HostBase:
         if isinstance(v, Stream):
             if all(e.kind == "yield" for e in v.events):
                 return Const(len(v.events))
+            if v.events and all(e.kind == "foreach" and not any(b.kind in ("yield", "yield_from", "foreach") for b in e.body) for e in v.events):
+                # built by loops whose generic iteration contributes nothing on this path (a filter that is false for
+                # the generic element): on this path the result is empty
+                return Const(0)
             return IntV(Lin.var(self.len_var(("stream", v.id), "stream")))
         if isinstance(v, AbsQueue):
             if v.items is not None:
